@@ -1,7 +1,7 @@
 (* C03, Type 2: an NDEF write and format change nothing outside the NDEF message area, and every
    WRITE command addresses a page that holds a byte of that area. *)
 From Coq Require Import ZArith List Bool Lia ZifyBool.
-From NV Require Import Base.Result Base.Bytes Model.TlvMem Model.T2T Proofs.TlvLib Proofs.T2TRead Proofs.T2TPhases Proofs.T2TWrite.
+From NV Require Import Base.Result Base.Bytes Model.TlvMem Model.T2T Proofs.TlvLib Proofs.TlvPhases Proofs.T2TRead Proofs.T2TPhases Proofs.T2TWrite.
 Import ListNotations.
 Open Scope Z_scope.
 
